@@ -31,6 +31,7 @@ type vMerge struct { // loc[0] < bound: prev; else fresh fn
 	fn    string
 	bound string
 	ub    string
+	keep  map[string]bool // objects known to be untouched (private allocations the loop never stores to)
 }
 type vJoin struct {
 	conds []string
@@ -82,6 +83,7 @@ type State struct {
 	a0         string
 	touchesAll bool // loop contains calls/allocations: other heaps havoc >= entry nxt
 	nxt        string
+	keep       map[string]bool
 	memo       map[string]View
 	ver        int // heap version: changes with every write or havoc, not with allocation
 }
@@ -165,10 +167,10 @@ func (e *Enc) view(s *State, heap string) View {
 			}
 		case s.stored[heap]:
 			e.declHeapFn(fn, heap)
-			v = &vMerge{prev: p, fn: fn, bound: s.a0, ub: s.nxt}
+			v = &vMerge{prev: p, fn: fn, bound: s.a0, ub: s.nxt, keep: s.keep}
 		case s.touchesAll:
 			e.declHeapFn(fn, heap)
-			v = &vMerge{prev: p, fn: fn, bound: s.prev.nxt, ub: s.nxt}
+			v = &vMerge{prev: p, fn: fn, bound: s.prev.nxt, ub: s.nxt, keep: s.keep}
 		default:
 			v = p
 		}
@@ -265,7 +267,7 @@ func (e *Enc) sel(v View, heap string, loc Loc) string {
 			out = "(ite " + c + " " + x.val + " " + e.sel(x.prev, heap, loc) + ")"
 		}
 	case *vMerge:
-		if e.isOld(loc[0]) {
+		if e.isOld(loc[0]) || x.keep[loc[0]] {
 			out = e.sel(x.prev, heap, loc)
 		} else {
 			f := "(" + x.fn + " " + strings.Join(loc, " ") + ")"
